@@ -110,6 +110,12 @@ def operand_len(x):
 def gen_case(rng, malformed=False, long=False):
     n = rng.randint(1, 6)
     xs = [gval(rng) for _ in range(n)]
+    if rng.random() < 0.2:
+        # large offset, small spread (timestamps, counters): the aggregates must not lose the
+        # spread to cancellation
+        off = rng.choice([1.0e6, 1.0e8, 1.6e9, -3.0e7])
+        sp = rng.choice([0.5, 1e-2, 3.0])
+        xs = [off + round(rng.uniform(-1, 1) * sp, 4) for _ in range(n)]
     r = rng.random()
     if r < 0.25:
         spec, es = None, [0.0] * n
